@@ -345,7 +345,19 @@ def _compare_lists(S, ctx, a, b, what, feature, monitor, text):
         except Exception:
             k = 1.0
         S_abs = max([1.0] + [max(abs(p[0]), abs(p[1])) for _, pts in x["geo"] for p in pts])
-        bound = 3e-6 * (2 * max(x["L"], y["L"]) + 1) * k + 1e-9 * S_abs
+        # the written matrix acts on the element's own coordinates: the compared points taken back through the source matrix
+        # (an arc with large radii reaches far beyond its end points)
+        L = max(x["L"], y["L"])
+        try:
+            a_, b_, c_, d_, e_, f_ = x["t"]
+            det = a_ * d_ - b_ * c_
+            for _, pts in x["geo"]:
+                for px, py in pts:
+                    u, v = px - e_, py - f_
+                    L = max(L, abs((d_ * u - c_ * v) / det), abs((-b_ * u + a_ * v) / det))
+        except ZeroDivisionError:
+            pass
+        bound = 3e-6 * (2 * L + 1) * k + 1e-9 * S_abs
         for (kk, pa), (_, pb) in zip(x["geo"], y["geo"]):
             size = max([math.hypot(p[0] - pa[0][0], p[1] - pa[0][1]) for p in pa])
             bnd = bound + (2e-5 * size if kk == "A" else 0.0)  # arc parameters are written with six digits too
